@@ -58,8 +58,9 @@ def _minus(dom, sub):
     return out
 
 
-def piecewise(fn, is_x_place, lo, hi, max_steps=200000):
+def piecewise(fn, is_x_place, lo, hi, max_steps=200000, resolve=None, _depth=0):
     out = []
+    sub_cache = {}
     work = [(0, 0, [(lo, hi)], {})]   # block, stmt index, domain, env
     steps = 0
     while work:
@@ -110,6 +111,12 @@ def piecewise(fn, is_x_place, lo, hi, max_steps=200000):
                     fork_on(v, cont)
                     forked = True
                     break
+            elif k == "un" and rv[1] == "Not":
+                a = val(rv[2])
+                if isinstance(a, int):
+                    v = 1 - a if a in (0, 1) else None
+                elif isinstance(a, tuple) and a[0] == "cmp":
+                    v = ("cmp", a[1], {"Ge": "Lt", "Gt": "Le", "Le": "Gt", "Lt": "Ge", "Eq": "Ne", "Ne": "Eq"}[a[2]], a[3])
             elif k == "bin":
                 a, c = val(rv[2]), val(rv[3])
                 op = rv[1]
@@ -154,6 +161,15 @@ def piecewise(fn, is_x_place, lo, hi, max_steps=200000):
                     work.append((t_tgt, 0, tr, env))
                 if fa:
                     work.append((f_tgt, 0, fa, env))
+            elif isinstance(d, tuple) and d[0] == "x":
+                rest = dom
+                for vv, x in t[2]:
+                    tr, rest2 = _split(rest, "x", "Eq", vv)
+                    if tr:
+                        work.append((x, 0, tr, env))
+                    rest = rest2
+                if rest:
+                    work.append((t[3], 0, rest, env))
             else:
                 raise Unsupported("switch on unknown value in bb%d" % b)
         elif k == "call":
@@ -177,6 +193,16 @@ def piecewise(fn, is_x_place, lo, hi, max_steps=200000):
                     work.append((tgt, 0, dom, env))
                 else:
                     raise Unsupported("call %s on unknown value" % nm)
+            elif resolve is not None and _depth < 3 and sum(1 for a in args if a == ("x",)) == 1 and all(a == ("x",) or isinstance(a, int) for a in args) and resolve(nm) is not None:
+                g = resolve(nm)
+                k_x = [i for i, a in enumerate(args) if a == ("x",)][0] + 1
+                if nm not in sub_cache:
+                    sub_cache[nm] = piecewise(g, lambda p, k_x=k_x: p == [k_x], lo, hi, max_steps, resolve, _depth + 1)
+                for a_, b_, r in sub_cache[nm]:
+                    part = [(max(a_, x0), min(b_, x1)) for x0, x1 in dom if max(a_, x0) <= min(b_, x1)]
+                    if part:
+                        e2 = dict(env); e2[dest[0]] = r
+                        work.append((tgt, 0, part, e2))
             else:
                 raise Unsupported("call %s in bb%d" % (nm, b))
         else:
